@@ -591,6 +591,26 @@ def v9(prog: Program, chk: Check) -> None:
             f"idiom(s)", len(units) >= 40, "" if len(units) >= 40 else "the module shrank")
 
 
+def v10(prog: Program, chk: Check) -> None:
+    chk.rule("V10", "operators of a multi-time correlation that fall on the same time step act in "
+             "the order in which they were inserted: _compute_ordered_nt_correlations hands them "
+             "to Control.add_single in time order, and Control composes a repeated addition with "
+             "the NEW operation on the left - at every accumulation slot' = X @ Y of class Control "
+             "and, when a slot is kept as a list, at the fold that reads it", floor=4)
+    from rules import c18
+    n = c18.accumulation_order(prog, chk, "V10", classes={"Control"})
+    n += c18.stacking_folds(prog, chk, "V10", classes={"Control"})
+    if n < 4:
+        raise AnalysisError(f"V10: only {n} composition sites found in class Control")
+    # the operators are inserted in time order: one add_single per operator, in loop order
+    u = prog.unit("system_dynamics:_compute_ordered_nt_correlations")
+    chk.saw(u)
+    adds = [c for c in walk_local(u.node) if isinstance(c, ast.Call)
+            and isinstance(c.func, ast.Attribute) and c.func.attr == "add_single"]
+    chk.add("V10", u, f"{len(adds)} add_single call(s) insert the earlier operators", len(adds) >= 1,
+            "" if adds else "the earlier operators are no longer inserted through Control.add_single")
+
+
 def run(prog: Program, chk: Check) -> None:
     chk.explanation = (
         "Decides the alignment bookkeeping of compute_correlations(_nt): V1 the time step that "
@@ -612,3 +632,4 @@ def run(prog: Program, chk: Check) -> None:
     chk.call(v6_v7, prog, chk)
     chk.call(v8, prog, chk)
     chk.call(v9, prog, chk)
+    chk.call(v10, prog, chk)
